@@ -130,6 +130,9 @@ struct Ctx {
     /// the server's log late, while the next exchange is running; it belongs to its own exchange, not to that one
     past: std::collections::HashSet<u32>,
     stale_dropped: u64,
+    /// a second, single-threaded runtime: a client object may be driven from more than one runtime in its life
+    alt_rt: Arc<tokio::runtime::Runtime>,
+    use_alt: bool,
 }
 
 fn attrs_len_of(p: &Plan) -> usize {
@@ -231,6 +234,7 @@ impl Ctx {
             let sb = shared_b.clone();
             let sa = shared_a.clone();
             let rt = self.rt.handle().clone();
+            let (alt_rt, use_alt) = (self.alt_rt.clone(), self.use_alt);
             let big = pay.len() > 4096;
             handles.push(std::thread::spawn(move || {
                 let t0 = Instant::now();
@@ -255,7 +259,7 @@ impl Ctx {
                             let (src, _sh) = Scripted::new(Arc::new(pay.clone()), script, if big { 65536 } else { 2 }, false);
                             *req.payload_mut() = IppPayload::new_async(src.threaded());
                         }
-                        let r = rt.block_on(async {
+                        let fut = async {
                             match sa.send(req).await {
                                 Ok(resp) => {
                                     let mj = msg_json(&resp);
@@ -266,7 +270,8 @@ impl Ctx {
                                 }
                                 Err(e) => Err(e),
                             }
-                        });
+                        };
+                        let r = if use_alt { alt_rt.block_on(fut) } else { rt.block_on(fut) };
                         result_json(r, &exp)
                     }
                 }))
@@ -323,7 +328,8 @@ impl Ctx {
             if self.samples.len() < 4 {
                 self.samples.push(json!({"what": what, "rid": rid, "client": kind, "script": scripts.get(&rid).map(|s| json!({"framing": s["framing"], "status": s["status"], "cut": s["cut"], "stall": s["stall"]})), "ok": rj["ok"]}));
             }
-            self.sink.emit(&json!({"ev": "ret", "rid": rid, "client": kind, "res": rj, "ms": ms}), &side);
+            let tmo: i64 = built.get(&rid).and_then(|b| b.2.timeout_ms).map(|t| t as i64).unwrap_or(-1);
+            self.sink.emit(&json!({"ev": "ret", "rid": rid, "client": kind, "res": rj, "ms": ms, "timeout_ms": tmo}), &side);
             self.n += 1;
         }
         self.sink.emit(&json!({"ev": "endx"}), &side);
@@ -352,7 +358,8 @@ pub fn run(a: &Args) {
     let server4 = Server::start(mk_responder(plans.clone()), false);
     let server6 = std::panic::catch_unwind(|| Server::start(mk_responder(plans.clone()), true)).ok();
     let rt = tokio::runtime::Builder::new_multi_thread().worker_threads(4).enable_all().build().unwrap();
-    let mut cx = Ctx { drip_total: 0, sink: Sink::new(&out, "trace"), plans, server4, server6, rt, n: 0, samples: vec![], reuse: None, past: std::collections::HashSet::new(), stale_dropped: 0 };
+    let mut cx = Ctx { drip_total: 0, sink: Sink::new(&out, "trace"), plans, server4, server6, rt, n: 0, samples: vec![], reuse: None, past: std::collections::HashSet::new(), stale_dropped: 0,
+        alt_rt: Arc::new(tokio::runtime::Builder::new_current_thread().enable_all().build().unwrap()), use_alt: false };
     let p4 = cx.server4.port;
     let mut r = Rng::new(seed);
     let cfgs = [
@@ -543,11 +550,15 @@ pub fn run(a: &Args) {
         for kind in ["blocking", "async"] {
             let uri: Uri = targets4[1].parse().unwrap();
             cx.reuse = Some((Arc::new(build_blocking(&uri, &cfgs[1])), Arc::new(build_async(&uri, &cfgs[1]))));
-            for round in 0..4usize {
-                let plans = (1..=5u32).map(|i| mk_plan(i, ["length", "chunked", "close"][(round + i as usize) % 3], 200, None, false, 0, round + i as usize, 10 * round + i as usize)).collect();
+            for round in 0..5usize {
+                // the peer keeps the connection alive (as CUPS does); the first two sends are driven by a second,
+                // single-threaded runtime that stays alive but idle afterwards
+                cx.use_alt = round < 2;
+                let plans = (1..=5u32).map(|i| mk_plan(i, ["length-ka", "chunked-ka", "length-ka", "close"][(round + i as usize) % 4], 200, None, false, 0, round + i as usize, 10 * round + i as usize)).collect();
                 cx.exchange("the same client object again, request-id 1 as the builders give it", vec![(1, kind, targets4[1].clone(), cfgs[1].clone(), pattern(100 + 1000 * round, round as u32), round)], plans, None, false);
             }
             cx.reuse = None;
+            cx.use_alt = false;
         }
     }
     // (H) a slow but never silent server: the answer dribbles in for longer than the request timeout
